@@ -128,6 +128,10 @@ class SidecarValidator:
             issues(list): A list of issues found with the structure
         """
         all_validation_issues = []
+        for given_type in getattr(sidecar, "_non_object_documents", []):
+            all_validation_issues += error_handler.format_error_with_context(SidecarErrors.WRONG_HED_DATA_TYPE,
+                                                                             given_type=given_type,
+                                                                             expected_type="dict")
         for column_name, dict_for_entry in sidecar.loaded_dict.items():
             error_handler.push_error_context(ErrorContext.SIDECAR_COLUMN_NAME, column_name)
             all_validation_issues += self._validate_column_structure(column_name, dict_for_entry, error_handler)
